@@ -626,6 +626,22 @@ func (tm *TileMatrix) UnmarshalJSONFromMap(data interface{}) error {
 		return fmt.Errorf(`data is not a map but a %T`, data)
 	}
 
+	// negative, fractional or too large numbers would be silently converted to an unsigned integer
+	err = checkUnsignedIntegers(dataMap, "tileWidth", "tileHeight", "matrixWidth", "matrixHeight")
+	if err != nil {
+		return err
+	}
+	if variableMatrixWidths, isList := dataMap["variableMatrixWidths"].([]interface{}); isList {
+		for _, variableMatrixWidth := range variableMatrixWidths {
+			if variableMatrixWidthMap, isMap := variableMatrixWidth.(map[string]interface{}); isMap {
+				err = checkUnsignedIntegers(variableMatrixWidthMap, "coalesce", "minTileRow", "maxTileRow")
+				if err != nil {
+					return err
+				}
+			}
+		}
+	}
+
 	_, err = marshmallow.UnmarshalFromJSONMap(dataMap, tm, marshmallow.WithExcludeKnownFieldsFromMap(true))
 	if err != nil {
 		return err
@@ -633,6 +649,18 @@ func (tm *TileMatrix) UnmarshalJSONFromMap(data interface{}) error {
 
 	validate := validator.New(validator.WithRequiredStructEnabled())
 	return validate.Struct(tm)
+}
+
+// checkUnsignedIntegers makes sure that the members with the given keys, if they are numbers,
+// are whole, not negative and small enough to be represented exactly
+func checkUnsignedIntegers(dataMap map[string]interface{}, keys ...string) error {
+	for _, key := range keys {
+		number, isNumber := dataMap[key].(float64)
+		if isNumber && (number < 0 || number != math.Trunc(number) || number >= 1<<53) {
+			return fmt.Errorf(`"%s" should be a non-negative integer, got: %v`, key, number)
+		}
+	}
+	return nil
 }
 
 type CornerOfOrigin string
